@@ -169,10 +169,8 @@ def wf_seg(prev_coll, x, f21=True):
         if not (attr != "" and first_not_in("&", attr)):
             return False
         if m == "REGEX":
-            return d not in term and d != " " and d != "\\" and not (f21 and quote_wrapped(term))
-        if q is None:
-            return not (f21 and quote_wrapped(term))
-        return True
+            return d not in term and d != " " and d != "\\"
+        return True     # the former F21 clause (quote_wrapped) is gone since the parser repair
     if k == "KW":
         return True
     if k == "COLL":
@@ -515,10 +513,17 @@ def judge(case, obs):
 
 
 def f21_pred(case, obs):
-    """F21: a search term that is, or starts and ends with, one quote character (written escaped or as a regex)."""
+    """F21, the printer half (the parser half is repaired): a search term that is, or starts and ends with, one quote
+    character reaches str() -- SearchTerms.__str__ writes it without escaping the quotes and the canonical text
+    re-parses to the bare term.  NOT covered: the rendered text itself parsing to other segments (clause 1; the
+    repaired parser half), so a revert of that repair is a violation."""
     sep, segs, peer, tail = case
     pool = list(segs) + (list(peer[1]) if peer else []) + ([tail] if tail else [])
-    return any(x[0] == "SEARCH" and quote_wrapped(x[4]) for x in pool)
+    if not any(x[0] == "SEARCH" and quote_wrapped(x[4]) for x in pool):
+        return False
+    if wf(sep, segs) and obs[4] != expected_line(segs):
+        return False
+    return True
 
 
 def f23_pred(case, obs):
@@ -774,8 +779,11 @@ def corpus_chunks():
     """Witnesses of the known findings and of the repaired defects."""
     k = ("KEY", "x", None)
     return [[
-        ("dot", (("SEARCH", False, "EQUALS", "a", "'", False, None, "/"),), None, None),                       # F21
-        ("dot", (k, ("SEARCH", False, "REGEX", "a", "'x'", False, None, "/")), None, None),                     # F21, regex
+        ("dot", (("SEARCH", False, "EQUALS", "a", "'", False, None, "/"),), None, None),                       # F21, repaired
+        ("dot", (k, ("SEARCH", False, "REGEX", "a", "'x'", False, None, "/")), None, None),                     # F21, regex, repaired
+        ("dot", (k, ("SEARCH", False, "EQUALS", "a", "'x'", False, None, "/")), None, None),                    # F21, repaired
+        ("slash", (k, ("SEARCH", True, "STARTS_WITH", "a", '"', False, None, "/")), None, None),                # F21, repaired
+        ("dot", (k, ("SEARCH", False, "EQUALS", "b", "'x'", False, "dq", "/")), None, None),                    # F21, printer half (known)
         ("dot", (("KEY", "a.b", None),), ("slash", (("KEY", "a.b", None),)), None),                             # F23
         ("dot", (k, ("SEARCH", False, "REGEX", "b", "a/", False, None, "|")), None, None),                      # fixed #22
         ("dot", (k, ("SEARCH", False, "CONTAINS", "a", "%", False, "sq", "/")), None, None),                    # fixed #24
